@@ -60,9 +60,6 @@ def run(eng, tier):
         eng.ob(ok, PROP, 'record', v + ':only-class', 'ApproveAsk: the saved ask is not the stored ask with only its class replaced (changed: %s)' % ([pth for pth, _ in ups] if ups is not None else 'not derived'), where=w['site'])
         if ok:
             got = ups[0][1]
-            def canon(t):
-                if t[0] == 'adt': return ('adt', t[1], t[2], tuple(sorted((n, canon(x)) for n, x in t[3])))
-                return t
             eng.ob(canon(got) == canon(want_cls), PROP, 'record', v + ':class-value', 'ApproveAsk: the written class is %s, expected Ready{approver: sender, converted_base: size of base}' % K(got)[:200], where=w['site'],
                    sample={'rule': 'record', 'written_class': K(got)[:160]})
         eng.ob(w['key'] == M(v, 'id'), PROP, 'key', v, 'ApproveAsk: saved under key %s' % K(w['key']), where=w['site'])
@@ -127,7 +124,7 @@ def run(eng, tier):
         ('zero-amount-pull', 'D(validate: size >= 1)', lambda e: is_sign(e['fact'], M(v, 'size'), 'zero')),
     ]
     def ab(e, kind): return e.get('abort') and e['abort'][0] == kind
-    TA = [('action-name-serialisation', 'D', lambda e: ab(e, 'unwrap') and 'ContractAction' in e['key']),
+    TA = [('action-name-serialisation', 'D', lambda e: is_unit_enum_serialisation(e)),
           ('zero-amount-pull', 'D(validate: size >= 1)', lambda e: ab(e, 'unwrap') and 'transfer amount must be > 0' in e['key'])]
     m = check_table(eng, PROP, refs, v, T, TA, 'an approval')
     for name in ('not-approver', 'unknown-id', 'plain-ask', 'already-approved', 'size-mismatch', 'base-mismatch'):
